@@ -92,3 +92,74 @@ class C10Harness(DocMixin):
 
 
 HARNESSES = {"c09": C09Harness, "c10": C10Harness}
+
+
+import os as _os
+import sys as _sys
+
+_sys.path.insert(0, _os.path.join(env.VERIF, "vendor"))
+from markdown_it import MarkdownIt  # noqa: E402
+
+from checks.html_sym import in_domain, norm  # noqa: E402
+from engine.oracles import rfp  # noqa: E402
+from pymarkdown.transform_gfm.transform_to_gfm import TransformToGfm  # noqa: E402
+
+_MD = MarkdownIt("commonmark")
+_TOK8 = None
+
+
+class C08Harness(DocMixin):
+    """fix preserves the reference parser's content fingerprint.  Cells over the C03 domain."""
+
+    restrict_domain = False
+
+    def __init__(self, params):
+        global _TOK8
+        self._init_doc(params)
+        self.argv = app.rule_args(params.get("selection", "default")) + ["fix", F]
+        app.the_vfs()
+        if _TOK8 is None:
+            with NoTracing():
+                _TOK8 = env.make_tokenizer()
+
+    def body(self, v):
+        cells = [v[f"c{i}"] for i in range(len(self.holes))]
+        for c in cells:
+            if not in_domain(c):
+                return SKIP
+        from engine.env import build_cells, sym_doc
+
+        d = sym_doc(build_cells(self.skeleton, self.holes, cells))
+        try:
+            g = TransformToGfm().transform(_TOK8.transform(d, show_debug=False))
+        except Exception:  # noqa
+            return SKIP
+        if not (norm(g) == norm(_MD.render(d))):
+            return SKIP  # C03's finding: the rules act on a wrong structure
+        o = app.run_main(self.argv, [(F, d)])
+        if scan_props.mentions(o.err, "Error") or o.code == 1:
+            return SKIP
+        d1 = content(o)
+        if d1 == d:
+            return ("same", d, d1, None, None)
+        return ("changed", d, d1, rfp.fingerprint(_MD.parse(d)), rfp.fingerprint(_MD.parse(d1)))
+
+    def judge(self, obs, v):
+        if isinstance(obs, Raised):
+            return raised_verdict(obs)
+        kind, d, d1, f0, f1 = obs
+        if kind == "same":
+            return []
+        if not (f0 == f1):
+            return [{"kind": "meaning-changed", "detail": {"fixed": d1, "before": f0, "after": f1}}]
+        return []
+
+    def digest(self, obs, rv):
+        if isinstance(obs, Raised):
+            return "raised:" + obs.root_type + "@" + obs.site
+        with NoTracing():
+            f = obs[3]
+            return obs[0] + ":" + (" ".join(x if isinstance(x, str) else x[0] for x in env.deep_realize(f)) if f else "")
+
+
+HARNESSES["c08"] = C08Harness
